@@ -708,6 +708,7 @@ def grouper(rep, prog, f, keytext):
     if len(fi.params) != (2 if m is not None else 1):
         raise AnalysisError('PGPKey.parse: grouping key function takes %s' % fi.params)
     P = fi.params[-1]
+    outer_names = {n for x in ast.walk(call) if isinstance(x, (ast.Nonlocal, ast.Global)) for n in x.names}
     sig = prog.cls('pgpy.constants', 'PacketTag').enum_members().get('Signature')
     cands = ['%s.header.tag == PacketTag.Signature' % P, '%s.header.tag == %r' % (P, sig)]
     ok = True
@@ -723,6 +724,9 @@ def grouper(rep, prog, f, keytext):
             v = atom_value(s.facts, 'isinstance(%s, Signature)' % P)
             is_sig = v
         st = [(p, v) for p, v, l, _ in s.stores]
+        # state kept in a variable of the enclosing scope (`nonlocal last` / `global last`): an assignment to it is a store of the
+        # state just like `self.last = ...`; the value returned afterwards is read back through that name
+        st += [(e[1], e[2]) for e in s.events if e[0] == 'assign' and e[1] in outer_names]
         r = render(s.ret) if s.ret is not None else None
         found.append(([x[0] if x[1] else 'not ' + x[0] for x in s.facts], st, r))
         if s.raised is not None or is_sig is None or len(atoms(path_cond(s.facts))) != 1:
